@@ -293,7 +293,7 @@ func FamilyUpdate(thorough bool) []*Conv {
 			Decls:   "type PFXIa struct {\n\tX int\n\tY string\n}\ntype PFXIb struct {\n\tX int\n\tY string\n}\ntype PFXIn struct {\n\tA int\n\tB string\n\tD PFXIa\n\tF []int\n\tG map[string]int\n\tKeep int\n}\ntype PFXOut struct {\n\tA int\n\tB string\n\tD PFXIb\n\tF []int\n\tG map[string]int\n\tKeep int\n\tOnly string\n}\n",
 			CLI:     ov.cli, ConvLines: ov.conv,
 			MethodLines: append([]string{"update target", "ignore Keep Only"}, ov.m...),
-			Spec: &Spec{Update: &u, Pairs: map[string]*PairSpec{"PFXIn→PFXOut": {Fields: map[string]*FieldSpec{"Keep": {Ignore: true}, "Only": {Ignore: true}}}}},
+			Spec:        &Spec{Update: &u, Pairs: map[string]*PairSpec{"PFXIn→PFXOut": {Fields: map[string]*FieldSpec{"Keep": {Ignore: true}, "Only": {Ignore: true}}}}},
 		})
 	}
 	// a field filled by a function without source parameter inside an update method (nothing to compare with zero)
@@ -308,14 +308,14 @@ func FamilyUpdate(thorough bool) []*Conv {
 			lines = []string{"update:ignoreZeroValueField"}
 		}
 		out = append(out, &Conv{
-			ID:      fmt.Sprintf("update/noargfunc/c%d", cats),
-			Family:  "update",
-			Format:  []string{"struct", "function", "variable"}[n%3],
-			Params:  "source PFXIn, target *PFXOut",
-			Results: []string{"", "error"}[n%2],
-			Decls:   "type PFXIn struct {\n\tA int\n\tKeep int\n}\ntype PFXOut struct {\n\tA int\n\tStamp string\n\tKeep int\n\tOnly string\n}\nfunc PFXGen() string { return \"\" }\n",
+			ID:          fmt.Sprintf("update/noargfunc/c%d", cats),
+			Family:      "update",
+			Format:      []string{"struct", "function", "variable"}[n%3],
+			Params:      "source PFXIn, target *PFXOut",
+			Results:     []string{"", "error"}[n%2],
+			Decls:       "type PFXIn struct {\n\tA int\n\tKeep int\n}\ntype PFXOut struct {\n\tA int\n\tStamp string\n\tKeep int\n\tOnly string\n}\nfunc PFXGen() string { return \"\" }\n",
 			MethodLines: append([]string{"update target", "ignore Keep Only", "map Stamp | PFXGen"}, lines...),
-			Spec: &Spec{Update: u, Pairs: map[string]*PairSpec{"PFXIn→PFXOut": {Fields: map[string]*FieldSpec{"Keep": {Ignore: true}, "Only": {Ignore: true}, "Stamp": {Fn: "PFXGen", FnNoSource: true}}}}},
+			Spec:        &Spec{Update: u, Pairs: map[string]*PairSpec{"PFXIn→PFXOut": {Fields: map[string]*FieldSpec{"Keep": {Ignore: true}, "Only": {Ignore: true}, "Stamp": {Fn: "PFXGen", FnNoSource: true}}}}},
 		})
 	}
 	// an update method whose struct pair contains itself by value, next to a declared method of the pointer family
@@ -353,12 +353,12 @@ func FamilyUpdate(thorough bool) []*Conv {
 					src = "*PFXSame"
 				}
 				out = append(out, &Conv{
-					ID:      fmt.Sprintf("update/sametype/skip%v_ptr%v_c%d", skip, srcPtr, cats),
-					Family:  "update",
-					Format:  []string{"struct", "function", "variable"}[n%3],
-					Params:  "source " + src + ", target *PFXSame",
-					Results: []string{"", "error"}[n%2],
-					Decls:   "type PFXSame struct {\n\tID int\n\tName string\n\tL []int\n\tP *int\n\tKeep int\n}\n",
+					ID:        fmt.Sprintf("update/sametype/skip%v_ptr%v_c%d", skip, srcPtr, cats),
+					Family:    "update",
+					Format:    []string{"struct", "function", "variable"}[n%3],
+					Params:    "source " + src + ", target *PFXSame",
+					Results:   []string{"", "error"}[n%2],
+					Decls:     "type PFXSame struct {\n\tID int\n\tName string\n\tL []int\n\tP *int\n\tKeep int\n}\n",
 					ConvLines: conv, MethodLines: lines,
 					Spec: &Spec{SkipCopy: skip, Update: u, Pairs: map[string]*PairSpec{"PFXSame→PFXSame": {Fields: map[string]*FieldSpec{"Keep": {Ignore: true}}}}},
 				})
@@ -390,17 +390,17 @@ func FamilyUpdate(thorough bool) []*Conv {
 		tgt := enumDef{"int", []enumMember{{"Red", "0"}, {"Green", "5"}, {"Blue", "6"}}}
 		es := &EnumSpec{Unknown: "Green", UnknownVal: "5", Map: []EnumArm{{"0", "0"}, {"1", "5"}, {"2", "6"}}}
 		cv := &Conv{
-			ID:      fmt.Sprintf("update/enumfield/c%d", cats),
-			Family:  "update",
-			Format:  []string{"struct", "function", "variable"}[n%3],
-			Params:  "source PFXIn, target *PFXOut",
-			Results: []string{"", "error"}[n%2],
-			Decls:   "type PFXIn struct {\n\tA int\n\tU pfxsrc.Color\n\tKeep int\n}\ntype PFXOut struct {\n\tA int\n\tU pfxtgt.Color\n\tKeep int\n\tOnly string\n}\n",
+			ID:          fmt.Sprintf("update/enumfield/c%d", cats),
+			Family:      "update",
+			Format:      []string{"struct", "function", "variable"}[n%3],
+			Params:      "source PFXIn, target *PFXOut",
+			Results:     []string{"", "error"}[n%2],
+			Decls:       "type PFXIn struct {\n\tA int\n\tU pfxsrc.Color\n\tKeep int\n}\ntype PFXOut struct {\n\tA int\n\tU pfxtgt.Color\n\tKeep int\n\tOnly string\n}\n",
 			ConvLines:   append([]string{"enum:unknown Green"}, lines...),
 			MethodLines: []string{"update target", "ignore Keep Only"},
-			Spec: &Spec{Update: u, Enums: map[string]*EnumSpec{"Color→Color": es}, Pairs: map[string]*PairSpec{"PFXIn→PFXOut": {Fields: map[string]*FieldSpec{"Keep": {Ignore: true}, "Only": {Ignore: true}}}}},
-			Aux:     map[string]string{"pfxsrc": src.source("pfxsrc", "Color"), "pfxtgt": tgt.source("pfxtgt", "Color")},
-			Imports: []string{`pfxsrc "corpus/GRP/pfxsrc"`, `pfxtgt "corpus/GRP/pfxtgt"`},
+			Spec:        &Spec{Update: u, Enums: map[string]*EnumSpec{"Color→Color": es}, Pairs: map[string]*PairSpec{"PFXIn→PFXOut": {Fields: map[string]*FieldSpec{"Keep": {Ignore: true}, "Only": {Ignore: true}}}}},
+			Aux:         map[string]string{"pfxsrc": src.source("pfxsrc", "Color"), "pfxtgt": tgt.source("pfxtgt", "Color")},
+			Imports:     []string{`pfxsrc "corpus/GRP/pfxsrc"`, `pfxtgt "corpus/GRP/pfxtgt"`},
 		}
 		out = append(out, cv)
 	}
